@@ -53,6 +53,7 @@ type Scenario struct {
 	StartStalled   bool              `json:"start_stalled"` // the remote's accept queue is full before the peer starts
 	StartRefused   bool              `json:"start_refused"` // nothing listens on the remote's port before the peer starts
 	FinalCloseMs   int               `json:"final_close_ms"` // how long the teardown waits for Close (default 8000)
+	HoldDownMs     int               `json:"holddown_ms"`   // shorten the 60..300 s hold-down timer to this (process-wide while the scenario runs)
 	NilHandler     bool              `json:"nil_handler"`   // OnEstablished returns a nil UpdateMessageHandler
 	OnCloseWrite   string            `json:"onclose_write"` // body to WriteUpdate from inside OnClose (recorded as write "onclose")
 	FirstOnly      bool              `json:"first_only"` // plugin script (on_open, handler, delays) applies to the first session only
@@ -856,6 +857,10 @@ func runScenario(sc *Scenario) *Result {
 	if err := r.addPeer(); err != nil {
 		res.Error = "AddPeer: " + err.Error()
 		return res
+	}
+	if sc.HoldDownMs > 0 {
+		bgp.VerifSetTimerOverride("holddown", time.Duration(sc.HoldDownMs)*time.Millisecond)
+		defer bgp.VerifSetTimerOverride("holddown", 0)
 	}
 	r.serveCh = make(chan error, 1)
 	if !sc.NoServe {
